@@ -180,7 +180,7 @@ def run_case(case, algos, do_swap):
         rec = {}
         del LOG[:]
         try:
-            mpo = Mpo(model, terms, offset=offset, algo=algo)
+            mpo, _model_used = L.make_mpo(case, algo)
         except Exception as e:
             rec["error"] = "%s: %s" % (type(e).__name__, str(e)[:300])
             rec["trace"] = traceback.format_exc()[-600:]
